@@ -9,7 +9,7 @@ ENGINES = [
          kind_free_text="explicit-state BFS / exhaustive configuration enumeration over the real Timer, Btdmp, Dma+Ahbm objects with lock-step reference models"),
     dict(name="sys", path="engines/sys", serves_properties=["C06", "C07", "C11", "C12", "C14", "C17"],
          kind_free_text="explicit-state BFS over the whole Teakra facade (host API + DSP-side MMIO) with snapshot/restore of the plain state and lock-step reference models"),
-    dict(name="isa", path="engines/isa", serves_properties=["C01", "C03", "C04", "C08", "C09"],
+    dict(name="isa", path="engines/isa", serves_properties=["C01", "C03", "C04", "C08", "C09", "C10", "C20"],
          kind_free_text="single-instruction enumerator over all 65536 opcodes x bounded state alphabet; two glue libraries (implementation vs frozen reference) behind a C ABI; decode introspection through a generated recording visitor; harness-owned choice engine inside the real test generator"),
 ]
 
@@ -43,6 +43,10 @@ CLAIMED = {
             "Every program of the family (rep with counts 0..8,255,256(,65535) x 12 bodies; bkrep with all 1-3 instruction bodies x counts 0..3, two-word last instruction, every nesting shape to depth 4 with counts in {0,1,2}, rep inside blocks incl. as last instruction, break, frame store/restore at depth 0-4) is executed and compared with its straight-line unrolling on the same interpreter; equality is over the whole register file except the loop-control registers plus the multiset of memory writes; the visible counter sequence and the cleared loop state are checked explicitly.",
             "Trusted: the program generator/unroller (60 lines), hand-assembled opcodes, g++. Each nesting level ends at its own address (precondition recorded in DESIGN).",
             "DESIGN.md section 4, C09"),
+    "C10": ("isa", "exhaustive enumeration of address-register stepping: all 8 registers x all 65536 start values x step kinds x modes, all 512 modulo values x all offsets, all 128 configured steps, every ar/arp selector and step code, through the real addressing instructions; linear / cyclic-walk / bit-reverse arithmetic as oracle",
+            "The value domains of this property are small enough to sweep completely per dimension (every start address, every modulo value with every offset, every 7-bit step, every selector), so the stepping rules are decided for the whole space rather than at sampled points; the access address is read from the memory observer, so 'uses the pre-modified / bit-reversed value' is checked on the real access.",
+            "Trusted: the 50-line step model written from the statement, hand-assembled addressing opcodes, g++. With modulo enabled only steps +1/-1/0 are defined by the statement (other steps: alignment guarantee only).",
+            "DESIGN.md section 4, C10"),
     "C11": ("sys", "exhaustive enumeration of all 2^18 memory words x all views (host accessors, raw bytes, instruction fetch, 13 guest load/store forms, movp/movd) and of all MMIO window bases x boundary offsets on the real machine, memory observer as write oracle",
             "The memory is small enough to visit every word through every view, for both banks and both memory-ownership modes, so the address arithmetic of the statement is decided completely rather than at sampled addresses; every window base k*0x200 (and off-grid bases) is checked at both edges for register-vs-memory routing, with the memory observer proving that no write reaches the cell underneath.",
             "Trusted: hand-assembled opcodes of the load/store forms, the memory-observer hook, g++. Default paging mode only.",
@@ -71,6 +75,10 @@ CLAIMED = {
             "All histories of length <= 2 over a 34-call API alphabet are executed on three instances whose heap is pre-filled with different patterns (with and without an initial Reset), and every pair (h1 of length <= 2, h2 of length <= 1) is executed as h1;Reset;h2 and compared with fresh;Reset;h2; the observation covers every modelled component (registers incl. hidden banks, latches, MIU, ICU incl. vectors, APBP, timers, audio port, DMA, AHBM incl. burst queues, the whole memory, host getters, callback log). Uninitialised members and incomplete resets are history-dependent bugs that need exactly this kind of exhaustive pairing to show.",
             "Trusted: operator-new replacement as the allocation seam (malloc'd memory is not filled), g++, -fno-access-control observation of private state. Raw backing words of unimplemented MMIO fields and DMA transfer-internal counters are not observed.",
             "DESIGN.md section 4, C17"),
+    "C20": ("isa", "exhaustive enumeration of all 65536 values of each of the 19 status/config words from a state alphabet through the real pseudo-register accessors and instruction paths, against a hand-written bit-layout table (field-by-field equality of the whole register file, alias read-back, depth-2 aliased writes)",
+            "Each word has only 65536 values, so write/read-back/frame behaviour is decided for every value from every base state, and from every 1-field deviation for a value alphabet; the oracle is a layout table applied to the flattened register file, so a wrong bit position, a field written that the word does not map, a read-only bit that becomes writable or an alias that drifts apart is found whatever the value.",
+            "Trusted: the layout table in engines/isa/c20_words.h (transcribed from the TeakLite/Teak register layouts; cross-checked against the flag legends printed by test_verifier), the glue flattening, g++. The annotated disassembler's reading of ar/arp is covered with C05's text engine.",
+            "DESIGN.md section 4, C20"),
 }
 
 PENDING_REASON = "check not built yet in this session (engine under construction); see DESIGN.md section 4 for the planned exhaustive exploration"
